@@ -308,7 +308,14 @@ def evVerdict (toks : List String) : String :=
     let cE (es : EState) : EState := { es with s := canonState es.s }
     let base := (baseEffect t).map fun (s, ok, pk) => (canonState s, ok, pk)
     let t := { t with pre := cE t.pre, post := t.post.map cE }
-    let sv := Spec.Evict.verdict t.ctx t.cmd t.pre base (died t) (t.kind == "err") t.post
+    -- a command that panics by itself (no limit configured) is the business of the wire / data-type properties
+    let basePanics : Bool :=
+      let ctx := { t.ctx with cfg := { maxMemory := 0, policy := t.ctx.cfg.policy }, hint := hintOf (t.kind == "ok") t.payload }
+      match step ctx t.pre.s t.cmd with
+      | some (_, .panic _) => true
+      | _ => false
+    let sv := if (basePanics && t.ctx.cfg.maxMemory != 0) == true then "na" else
+      Spec.Evict.verdict t.ctx t.cmd t.pre base (died t) (t.kind == "err") t.post
     -- the model's own transition, judged by the same spec: names the class of a known deviation
     let cls : String := match mr with
       | none => "-"
@@ -319,7 +326,7 @@ def evVerdict (toks : List String) : String :=
           | .ok (.res (.err _), e) => (false, false, true, some (cE e))
           | .ok (.errPrefix _, e) => (false, false, true, some (cE e))
           | .ok (_, e) => (false, false, false, some (cE e))
-        let mvd := Spec.Evict.verdict t.ctx t.cmd t.pre base mdied merr mpost
+        let mvd := if basePanics == true then "na" else Spec.Evict.verdict t.ctx t.cmd t.pre base mdied merr mpost
         (Known.classifyEvict t.ctx t.pre t.cmd mvd mhang mpost).getD "-"
     s!"{t.seq} {mv} ## ev={sv} ecls={cls}"
 
